@@ -203,6 +203,10 @@ class AssigningPatternEncoder(PatternEncoderBase):
         if not _set_check('_n_max', n_max):
             return False
 
+        # Check if the source nodes can get their minimum nr of connections at all
+        if src[0].min_conns > len(tgt)*n_max:
+            return False
+
         # Check if surjective (tgt nodes at least 1 conn)
         if all(n.max_inf for n in tgt):
             n_min_conn = np.array([n.min_conns for n in tgt])
